@@ -20,7 +20,7 @@ DYADS = [-2.0, -1.0, -0.5, 0.0, 0.25, 1.0, 3.0, 0.125]
 def gen_spec(rng, variant, tier):
     deep = tier == 'thorough'
     n_endo = rng.choice([1, 1, 2, 2, 3] + ([4, 5] if deep else []))
-    if variant in ('solver', 'solver_faults') and rng.random() < 0.03:
+    if variant in ('solver', 'solver_faults', 'solver_labels') and rng.random() < 0.03:
         n_endo = 0  # a model with no endogenous variables at all (every convergence test is vacuous)
     n_exo = rng.choice([0, 1, 1, 2])
     if n_endo == 0:
@@ -236,7 +236,7 @@ def neutralise_callbacks(plan, snap, post, ctx=None, tn=None):
 
 
 def gen_solve_op(rng, spec, variant, idx, tier):
-    faults = variant != 'solver'
+    faults = variant not in ('solver', 'solver_labels')
     n, lags, leads = spec['span']['n'], spec['lags'], spec['leads']
     opts = gen_opts(rng, faults, tier == 'thorough')
     tn = rng.randint(lags, n - 1 - leads)
@@ -262,7 +262,10 @@ def gen_solve_op(rng, spec, variant, idx, tier):
         'opts': opts,
         'plan': {'*': plan},
     }
-    if spec['kind'] == 'scripted' and rng.random() < 0.12 and not spec.get('dtype'):
+    if variant == 'solver_labels' and not spec.get('dtype'):
+        # (C10) hooks and equations that address the model's own series by label while a period is being solved
+        plan['cb'] = gen_callbacks(rng, spec, opts, tn, ['label_probe', 'label_probe', 'label_probe', 'label', 'rebind'])
+    elif spec['kind'] == 'scripted' and rng.random() < 0.12 and not spec.get('dtype'):
         plan['cb'] = gen_callbacks(rng, spec, opts, tn, SAFE_CALLBACKS + ['nested_solve', 'nested_solve', 'add_variable'])
     mix = spec.get('mixins') or []
     if 'progress' in mix:
